@@ -12,6 +12,30 @@ IMPORTS = ["Cstl.Sort.Props"]
 
 THEOREMS = {
     "C11": [
+        # partition / quicksort (PropsQuick.lean)
+        "Cstl.Sort.qsortP_spec",
+        "Cstl.Sort.qsort_sorted_perm",
+        "Cstl.Sort.qsort_range",
+        "Cstl.Sort.qsort_terminates",
+        "Cstl.Sort.qsort_random_terminates",
+        "Cstl.Sort.qsort_random_diverges",
+        # heapsort (PropsHeap.lean)
+        "Cstl.Sort.hsort_sorted_perm",
+        "Cstl.Sort.hsort_range",
+        # dispatch, all selectors, no access outside the array (Props.lean)
+        "Cstl.Sort.sort_default",
+        "Cstl.Sort.sort_sorted_perm",
+        "Cstl.Sort.sort_no_oob",
+        "Cstl.Sort.sort_terminates",
+        "Cstl.Sort.sort_total",
+        "Cstl.Sort.run_perm",
+        # search / find / reverse (PropsSearch.lean)
+        "Cstl.Sort.search_spec",
+        "Cstl.Sort.search_iff",
+        "Cstl.Sort.search_arr",
+        "Cstl.Sort.find_first",
+        "Cstl.Sort.reverse_mirror",
+        "Cstl.Sort.reverse_perm",
     ],
 }
 
